@@ -74,6 +74,7 @@ type Ctx struct {
 	known      map[string]*knownHit
 	findings   map[string]Finding
 	inconcl    []string
+	unfinished int
 	assume     []string
 	Exhaustive bool
 	MinNontriv int // floor of conclusive non-trivial cases for this tier
@@ -193,6 +194,15 @@ func (c *Ctx) Inconclusive(what string) {
 		c.inconcl = append(c.inconcl, what)
 	}
 	c.counters["inconclusive"]++
+	c.mu.Unlock()
+}
+
+// Unfinished records that a part of the planned workload did not run at all (a harness failure, not an observation
+// about ggql): the run as a whole is inconclusive (exit 2) unless it found a violation.
+func (c *Ctx) Unfinished(what string) {
+	c.Inconclusive(what)
+	c.mu.Lock()
+	c.unfinished++
 	c.mu.Unlock()
 }
 
@@ -450,6 +460,10 @@ func (c *Ctx) finishLocked() int {
 	if len(c.violations) > 0 {
 		code = 1
 		verdict = "violated"
+	} else if c.unfinished > 0 {
+		code = 2
+		verdict = "inconclusive"
+		fmt.Printf("INCONCLUSIVE property=%s reason=%d part(s) of the planned workload did not run (see inconclusive_cases in the evidence)\n", c.ID, c.unfinished)
 	} else if len(c.distinct) < c.MinNontriv {
 		code = 2
 		verdict = "inconclusive"
